@@ -145,6 +145,7 @@ func runOnce(c Case, watchdog time.Duration) (outcome, error) {
 	startReturned := false
 	var holdUntil time.Time
 	heldRead, heldAtReturn := false, false
+	retRead, stateAtReturn := false, ""
 	abandon := false // a second Start was accepted: the run is beyond repair, report what was seen
 	stepsAfter := 0
 	launched := 0
@@ -233,6 +234,13 @@ func runOnce(c Case, watchdog time.Duration) (outcome, error) {
 				time.Sleep(100 * time.Microsecond)
 			}
 		}
+		if startReturned && len(c.Ops) > 0 && launched == len(c.Ops) && s.Pending() == 0 && !retRead && !lockParked() {
+			// every Stop call has returned: the source must be inactive NOW (not only once the core loop gets round to it)
+			retRead = true
+			if v, ok := stateOf(src.Any, watchdog); ok && v != dastard.Inactive {
+				stateAtReturn = coqState[v]
+			}
+		}
 		if done() {
 			if !heldRead && len(c.Ops) > 0 {
 				// the last Stop call has just returned: what it promises must hold NOW, not some time later
@@ -293,6 +301,9 @@ func runOnce(c Case, watchdog time.Duration) (outcome, error) {
 	} else {
 		f.State = "Stopping"
 		out.Hung = true
+	}
+	if stateAtReturn != "" {
+		f.State = stateAtReturn // what GetState() said when the last Stop call had just returned
 	}
 	f.Writing = src.Any.WritingIsActive()
 	f.Delivered = s.Count("core:after-block") > 0
